@@ -20,3 +20,6 @@ pub mod t14;
 pub mod w2;
 pub mod t11;
 pub mod d6;
+pub mod t15;
+pub mod a8;
+pub mod w3;
